@@ -2,7 +2,7 @@
 From Coq Require Import List NArith ZArith Bool Arith String.
 Import ListNotations.
 Require Import Emit EmitLemmas GenGlobals GlobalsPolicy StandaloneLemmas.
-Require EmitGrows EmitPrefix.
+Require EmitGrows EmitPrefix EmitSafe.
 
 (* KIND C19_no_handler_can_swallow : F *)
 (* regenerated from lib/yaml: every try/except catches one of UnicodeEncodeError, binascii.Error, ImportError, IndexError, UnicodeDecodeError, TypeError
@@ -40,6 +40,15 @@ Eval vm_compute in "ASSUME:C19_events_consumed_left_to_right"%string. Print Assu
 Theorem C19_emit_prefix_monotone : forall es1 es2 s, exists d, fst (emit_all (es1 ++ es2)%list s) = (fst (emit_all es1 s) ++ d)%list.
 Proof. exact EmitPrefix.l_emit_prefix_monotone. Qed.
 Eval vm_compute in "ASSUME:C19_emit_prefix_monotone"%string. Print Assumptions C19_emit_prefix_monotone.
+
+(* KIND C19_emitter_raises_only_emitter_errors : U *)
+(* the only exceptions the emitter itself can raise are EmitterErrors: for EVERY event list and option set the model's run ends normally or with an
+   EmitterError, never with an IndexError / TypeError of its own (Proofs/EmitSafe.v) - so any other exception seen by the caller of emit() comes from
+   the caller's stream *)
+Theorem C19_emitter_raises_only_emitter_errors : forall evs canon allow_uni ind width lb,
+  EmitSafe.fine (snd (emit_all evs (init canon allow_uni ind width lb))).
+Proof. exact EmitSafe.emitter_never_crashes. Qed.
+Eval vm_compute in "ASSUME:C19_emitter_raises_only_emitter_errors"%string. Print Assumptions C19_emitter_raises_only_emitter_errors.
 
 (* PARTIAL: fault_propagates with oracle streams/callbacks in the model and writes_are_prefix (append-only output of every emitter state function) are not proved;
    decided by the direct run: an injected unique exception at EVERY index of the write()/flush()/read()/user-constructor/user-representer sequence must reach the
